@@ -53,6 +53,11 @@ CHECKS = {
             "Generated pipelines put 0..8 requests behind an Unbind (same write() or split at generated offsets) while any subset of the 0..8 earlier handlers is held on a gate; the oracle demands no handler entry and no response for anything after the Unbind, no response to the Unbind, the unbind handler exactly once iff registered, every earlier request answered once, and the close (client EOF and OnClose) stamped after every earlier handler's exit.",
             "the gate opens 0..40 ms after sending; a missing close is reported after 8 s (a correct server needs milliseconds after the gate opens)",
             "DESIGN.md §4 C10"),
+    "C13": ("exploration",
+            "property-based scenario testing (rapid) of StartTLS sessions with generated handler timings through a recording wiretap proxy; handshake/decoding oracle + byte classification of the wire",
+            "1..16 parallel sessions upgrade through a wiretap; the StartTLS handler's delays before the reply, between reply and handshake (client's ClientHello already on the wire) and after the handshake are generated; afterwards 1..40 generated requests run inside the tunnel, sequentially or pipelined. Conforming clients (raw independent client and go-ldap) must complete the handshake for every timing, every tunnel request must be decoded field-by-field as in C01 and answered once, and every captured byte after the StartTLS exchange must be a TLS record in both directions.",
+            "no operation is outstanding when StartTLS is sent (RFC 4511 4.14.1); TLS record classification is by content type/version/length only",
+            "DESIGN.md §4 C13"),
     "C14": ("exploration",
             "property-based round-trip testing (rapid) of controls in both directions with three independent encoders / two independent decoders; constructor law for the Behera control",
             "Request direction: 0..6 generated controls per message, each encoded by the harness's RFC-shape encoder, by gldap's own Encode or by go-ldap's Encode, decoded by the server's request path and compared field by field (type, criticality, page size, cookie, expire, grace, error + string, value) in order. Response direction: controls built with the exported constructors, written on Bind/SearchDone responses by a real handler, recovered by the harness's strict parser and by go-ldap's DecodeControl. Constructor: every subset/order of the three Behera options, error or at most one set and error <= 8. Exploration.",
@@ -63,6 +68,16 @@ CHECKS = {
             "Generated-input search against explicit oracles: no panic under recover for every exported helper/constructor with options drawn from ALL exported options (every subset/order reachable), ConvertString(wrap(s)) == s with an independent BER encoder, SIDBytesToString(SIDBytes(r,a)) == S-r-a (exhaustive over all 2^24 pairs in the thorough tier), NewEntry strictly sorted and stable, Values/ByteValues agreement after AddValue sequences; response constructors run inside real handlers on real requests and are written to the socket. Finds violations, cannot show absence beyond the enumerated SID space.",
             "trusts the harness's own BER encoder (wire) for the wrap direction and Go's recover for panic detection",
             "DESIGN.md §4 C16"),
+    "C17": ("exploration",
+            "property-based testing (rapid) over listen addresses (valid, malformed, port already bound) with poller goroutines spinning on Ready from before Run; dial-on-first-true oracle",
+            "0..8 pollers spin on Ready() from before Run is called under GOMAXPROCS 1..16; the first that sees true dials at once and a bind must be served; when Run returns an error (15 malformed forms, or a port the harness holds on both loopback families) no poller may ever have seen true and Ready must be false afterwards. The Go scheduler is not controlled: a window between flag and listen is found by repetition only.",
+            "uses the VerifListenAddr hook to learn the address actually bound; malformed-form list follows validateAddrPort's documented cases",
+            "DESIGN.md §4 C17"),
+    "C18": ("exploration",
+            "property-based testing (rapid) of offending client behaviours against TLS-configured servers (repository's own GetTLSConfig, with and without mTLS) and an mTLS test directory, concurrently with conforming bystanders",
+            "Offenders (plaintext requests of all 7 operations, random bytes, silent connections, partial ClientHello, TLS without certificate, certificate of another CA or self-signed - presented even when the server's CA list does not match) must never cause a handler entry (recording handler keyed by reserved message IDs; for the directory: the Add they send must have no effect visible to a conforming client) nor receive a response; valid clients and bystanders must be served.",
+            "handler execution inside testdirectory is observed through its effect (entry added); teardown is awaited through OnClose counts on the plain servers and a 20 ms grace on the directory",
+            "DESIGN.md §4 C18"),
     "C19": ("exploration",
             "property-based testing (rapid) of the bind decision against a three-line reference predicate, over plain/TLS/StartTLS with two independent clients",
             "Generated user sets (prefix/extension/case-variant/duplicate DNs, missing/empty/multi-valued passwords), both anonymous-bind settings (Set* on a running directory and WithDefaults at Start) and bind DN/password pairs related to the user set are sent through go-ldap SimpleBind and the raw independent client; the result code must be success iff the reference predicate of the statement holds, else 49. Exploration.",
